@@ -3,6 +3,7 @@
 -/
 import Props.C01
 import Props.C03
+import Props.ImageSegment
 namespace Slinky.C02
 open Slinky W
 
@@ -99,5 +100,19 @@ theorem moved_sections_sorted (order : List (Str × Str)) (sec : Str) (secs : Li
   cases order with
   | nil => exact absurd rfl h
   | cons a as => simp
+
+
+/-! ### in the linked image (the linker semantics `Slinkyv.Ld`) -/
+
+open Ld in
+/-- **C02, image clause**: along the statements of one output section of a segment the
+addresses of the placed input sections never decrease — each one ends before the next one
+starts — for every object table and every state of the link. -/
+theorem image_addresses_follow_statements (objs : List InSec) (cx : Ctx) (seg : Segment) (secs : List Str) (noload : Bool)
+    (ls : List Line) (h : writeSegment cx seg secs noload = .ok ls) (st : St) (ho : Outside st) (k : List Line) :
+    ∃ new, (execK objs st ls k).placed = st.placed ++ new ∧
+      new.Pairwise (fun p q => p.addr + p.inp.size ≤ q.addr) := by
+  obtain ⟨start, end_, al, new, st', name, addr, h0, _, _, _, _, _, _, _, h8, h9, _⟩ := section_image objs cx seg secs noload ls h st ho k
+  exact ⟨new, h0 ▸ h8, chainOk_sorted _ _ _ _ h9⟩
 
 end Slinky.C02
